@@ -32,7 +32,7 @@ func init() {
 		Technique: "per-path ledger balance over E-literals (every feasible combination of balance/supply updates at an exit sums to zero), single writers, term checks of the stored records and notifications, boundary-operator agreement over all time/expiration comparisons, ordering of release before credit",
 		Explanation: "D1 total supply, balances and the token index are written only by updateTotalSupply/updateBalance (and the deploy initialisation). D2 at every normal exit of every ABI method, every combination of executed updateBalance/updateTotalSupply calls that the exit facts allow has Σ balance diffs = Σ supply diffs. " +
 			"D3 one Transfer(from, to, 1, name) per ownership change, emitted exactly with the record write, from = the previous owner term (the stored owner whenever a balance was released). D4 Transfer stores the loaded record with Owner := to, Admin := nil. D5 Renew: 1 ≤ years ≤ 10, expiration += 365·24·3600·1000·years, the ten-year bound is enforced for non-TLD names. " +
-			"D6 every direct comparison between the block time and an Expiration field puts t == expiration on the expired side (sibling sites agree on the boundary). D7 OwnerOf/Properties return only with 'not expired' and 'parents alive' established; when a re-registration releases the old owner's entry the credit of the new owner has not yet been written (so re-registration by the same owner keeps its token index entry). D8 Transfer and Register hand control to the receiver (onNEP11Payment) only after all their stores (callback-last). M: Register stores only names of at least two labels, with the TLD present, parents alive and over an absent or expired record; RegisterTLD one label, free, root marker written; Transfer rewrites the record on every successful transfer to another account; updateBalance stores or deletes exactly by the new balance, continuing from the stored one; parentExpired level loop (range, pass only present ∧ unexpired, expired only for a missing or expired level); Renew refuses only outside 1 … 10 years / 255 bytes / the cap.",
+			"D6 every direct comparison between the block time and an Expiration field puts t == expiration on the expired side (sibling sites agree on the boundary). D7 OwnerOf/Properties return only with 'not expired' and 'parents alive' established; when a re-registration releases the old owner's entry the credit of the new owner has not yet been written (so re-registration by the same owner keeps its token index entry). D8 Transfer and Register hand control to the receiver (onNEP11Payment) only after all their stores (callback-last). M: Register stores only names of at least two labels, with the TLD present, parents alive and over an absent or expired record; RegisterTLD one label, free, root marker written; Transfer rewrites the record on every successful transfer to another account; updateBalance stores or deletes exactly by the new balance, continuing from the stored one; parentExpired level loop (range, pass only present ∧ unexpired, expired only for a missing or expired level); Renew refuses only outside 1 … 10 years / 255 bytes / the cap. R10: the parent-conflict helper reports a conflict only for a real sub-name record (shared with C12).",
 		NotCovered: "availability over time and token enumeration equality with a model; the accounting identity over histories is the inductive consequence of D1–D2, not executed.",
 		Run:        runC10,
 	})
@@ -158,6 +158,8 @@ func ledgerCalls(a *Analysis, balFn, supFn string) ([]*ledgerCall, string) {
 func runC10(cx *CheckCtx) {
 	w := cx.W
 	checkLoaders(cx, nnsPkg)
+	// "available again from its expiration instant": availability is refused only for a real conflict
+	checkParentConflictHelper(cx, cx.locate(nnsPkg, "getParentConflictingRecord", "searches record names for a suffix itself", func(f *ssa.Function) bool { return directCallees(f)["native/std.MemorySearchLastIndex"] > 0 }))
 	c := cx.contract("nns")
 	if c == nil {
 		return
@@ -1370,65 +1372,7 @@ func runC12(cx *CheckCtx) {
 		cx.decide(ok, "parent-conflict", "nns.Register", "registers only with 'no conflicting parent record' established", "a name can be registered while its parent holds records for sub-names of it", w.pos(m.Fn.Pos()))
 		_ = tb
 	}
-	if fn := conflictFn; fn != nil {
-		a := cx.analyze(&Query{Name: "std", Root: fn})
-		tb := a.tb
-		name := fnParam(tb, fn, 1)
-		okS := false
-		for _, s := range a.Sites(func(s *Site) bool { return s.Callee == "storage.Find" }) {
-			ps := keyParts(s.Args[1])
-			if len(ps) == 2 && ripemdArg(ps[1]) != nil && strings.Contains(ripemdArg(ps[1]).String(), name.String()) {
-				if sl := ripemdArg(ps[1]); sl.Op == "slice" && sl.Args[0] == name && len(sl.Args) == 3 && sl.Args[2].Op == "none" {
-					// from the byte after the first label and its dot
-					frs := fnParam(tb, fn, 2)
-					if sl.Args[1] == tb.binop(token.ADD, tb.mk("len", "", 0, tb.mk("index", "", 0, frs, tb.constInt(0))), tb.constInt(1), intType) {
-						okS = true
-					}
-				}
-			}
-		}
-		// polarity: a record name is reported as conflicting only when the searched name was found in
-		// it at a positive offset and ends it; "no conflict" only after the scan is exhausted
-		okPol := true
-		nRep := 0
-		for _, ex := range a.Exits() {
-			if len(ex.Results) != 1 {
-				continue
-			}
-			r := ex.Results[0]
-			if es, isC := r.BytesConst(); isC && es == "" {
-				// exhausted
-				exh := false
-				for _, f := range a.unitFacts(ex.State) {
-					if f.kind == KB && !f.pos && f.A.Op == "iternext" {
-						exh = true
-					}
-				}
-				if !exh {
-					okPol = false
-				}
-				continue
-			}
-			nRep++
-			pos, ends := false, false
-			for _, f := range a.unitFacts(ex.State) {
-				isInd := func(t *Term) bool {
-					return t != nil && t.contains(func(x *Term) bool { return isCall(x, "native/std.MemorySearchLastIndex") })
-				}
-				if f.kind == KLtC && !f.pos && f.C == 1 && isInd(f.A) {
-					pos = true
-				}
-				if (f.kind == KEq || f.kind == KEqC) && f.pos && (isInd(f.A) || isInd(f.B)) {
-					ends = true
-				}
-			}
-			if !pos || !ends {
-				okPol = false
-			}
-		}
-		cx.decide(okPol && nRep > 0, "parent-conflict", "nns.getParentConflictingRecord/polarity", "a conflict is reported only for a record name that ends with '.'‖name; none only after exhaustion", "the conflict test is inverted or weakened: names are refused without a conflicting parent record, or registered in spite of one", w.pos(fn.Pos()))
-		cx.decide(okS, "parent-conflict", "nns.getParentConflictingRecord/scan", "scans all records stored under the enclosing name", "the conflict check does not scan the records of the directly enclosing name", w.pos(fn.Pos()))
-	}
+	checkParentConflictHelper(cx, conflictFn)
 	// ---- D7 records become unreachable when the name expires: a read-only getter scans the
 	// records of token T only with "now < expiration of T" and "no enclosing name expired" established
 	{
@@ -2356,5 +2300,72 @@ func checkRecordOwner(cx *CheckCtx) {
 			}
 		}
 		cx.decide(ok, "record-owner", "nns.tokenIDFromName", "the longest registered, unexpired proper suffix, else the name itself", "nns.tokenIDFromName: "+why+" — records are filed under (and read from) another token", w.pos(fn.Pos()))
+	}
+}
+
+// checkParentConflictHelper: the helper that decides "the parent holds records for sub-names of this
+// name" (C12), shared with C10: a name that has no such record — an expired name being re-registered —
+// must not be reported as conflicting with itself.
+func checkParentConflictHelper(cx *CheckCtx, conflictFn *ssa.Function) {
+	w := cx.W
+	_ = w
+	if fn := conflictFn; fn != nil {
+		a := cx.analyze(&Query{Name: "std", Root: fn})
+		tb := a.tb
+		name := fnParam(tb, fn, 1)
+		okS := false
+		for _, s := range a.Sites(func(s *Site) bool { return s.Callee == "storage.Find" }) {
+			ps := keyParts(s.Args[1])
+			if len(ps) == 2 && ripemdArg(ps[1]) != nil && strings.Contains(ripemdArg(ps[1]).String(), name.String()) {
+				if sl := ripemdArg(ps[1]); sl.Op == "slice" && sl.Args[0] == name && len(sl.Args) == 3 && sl.Args[2].Op == "none" {
+					// from the byte after the first label and its dot
+					frs := fnParam(tb, fn, 2)
+					if sl.Args[1] == tb.binop(token.ADD, tb.mk("len", "", 0, tb.mk("index", "", 0, frs, tb.constInt(0))), tb.constInt(1), intType) {
+						okS = true
+					}
+				}
+			}
+		}
+		// polarity: a record name is reported as conflicting only when the searched name was found in
+		// it at a positive offset and ends it; "no conflict" only after the scan is exhausted
+		okPol := true
+		nRep := 0
+		for _, ex := range a.Exits() {
+			if len(ex.Results) != 1 {
+				continue
+			}
+			r := ex.Results[0]
+			if es, isC := r.BytesConst(); isC && es == "" {
+				// exhausted
+				exh := false
+				for _, f := range a.unitFacts(ex.State) {
+					if f.kind == KB && !f.pos && f.A.Op == "iternext" {
+						exh = true
+					}
+				}
+				if !exh {
+					okPol = false
+				}
+				continue
+			}
+			nRep++
+			pos, ends := false, false
+			for _, f := range a.unitFacts(ex.State) {
+				isInd := func(t *Term) bool {
+					return t != nil && t.contains(func(x *Term) bool { return isCall(x, "native/std.MemorySearchLastIndex") })
+				}
+				if f.kind == KLtC && !f.pos && f.C == 1 && isInd(f.A) {
+					pos = true
+				}
+				if (f.kind == KEq || f.kind == KEqC) && f.pos && (isInd(f.A) || isInd(f.B)) {
+					ends = true
+				}
+			}
+			if !pos || !ends {
+				okPol = false
+			}
+		}
+		cx.decide(okPol && nRep > 0, "parent-conflict", "nns.getParentConflictingRecord/polarity", "a conflict is reported only for a record name that ends with '.'‖name; none only after exhaustion", "the conflict test is inverted or weakened: names are refused without a conflicting parent record, or registered in spite of one", w.pos(fn.Pos()))
+		cx.decide(okS, "parent-conflict", "nns.getParentConflictingRecord/scan", "scans all records stored under the enclosing name", "the conflict check does not scan the records of the directly enclosing name", w.pos(fn.Pos()))
 	}
 }
